@@ -10,7 +10,7 @@ LEARNERS = ["dict_ndl", "ndl_threading", "ndl_openmp", "wh_b2r", "wh_r2b", "wh_r
 CHUNKED = ("ndl_threading", "ndl_openmp", "wh_b2r", "wh_r2b", "wh_r2r")      # learners that write binary chunks
 
 CUES = ["c%d" % i for i in range(6)]
-OUTS = ["o%d" % i for i in range(4)]
+OUTS = ["o%d" % i for i in range(9)]
 
 
 def base_events(rng, n, single):
@@ -126,6 +126,12 @@ def gen_cases(rng, thorough):
                 j = learner_job(learner, rng, lines_of(es), rng.choice(pers), rng.choice([1, 2, 3]))
                 j[key] = val
                 add("bad_type_%s=%r" % (key, val), j, "raise", learner=learner)
+            if learner == "ndl_threading":
+                # many more work items than threads: every worker thread dies on its first item
+                j = learner_job(learner, rng, lines_of(es), 10000000, 1)
+                j["n_outcomes_per_job"] = 1
+                j["alpha"] = {"raw": "0.1"}
+                add("bad_type_alpha='0.1' many_work_items", j, "raise", learner=learner)
         else:
             j = learner_job(learner, rng, lines_of(es), rng.choice(pers), 2)
             j["eta"] = {"raw": "0.1"}
